@@ -204,6 +204,21 @@ def harness_listener(rcvbuf=None):
     return ls
 
 
+def accept_from(ls, hio_sock):
+    """One non-blocking accept on a harness listener that only keeps the connection made by `hio_sock`.
+    Other agents' checks share this machine's loopback; a stray connection to our ephemeral port is closed.
+    Raises BlockingIOError when nothing is pending; returns None after dropping a stranger."""
+    s, addr = ls.accept()
+    try:
+        mine = hio_sock is not None and addr == hio_sock.getsockname()
+    except OSError:
+        mine = False
+    if not mine:
+        s.close()
+        return None
+    return s
+
+
 def accept_peer(ls, tls=False, tries=200):
     """Accept the (already connecting) hio client on a harness listener; returns RawPeer or None."""
     for _ in range(tries):
